@@ -122,6 +122,35 @@ def build(chk):
         P.require('product-enclosed', encloses(res, r_mul(p.r, q.r)), witness)
     chk.harness('Bound::mul', h_mul, regions=['unbounded-factor'])
 
+    # Bound * f64 for EVERY non-zero real factor (the Kani harness covers true doubles on a restricted magnitude range only)
+    scale = eng.find_body(lambda b: b.name.split('::')[-1] == 'mul' and b.param_tys == ['bound::Bound', 'f64'])
+
+    def h_scale(P):
+        a, ab = sym_bound(P, 'a')
+        k = P.real('k')
+        P.ctx.assume(k.r != 0)
+        p = point_in(P, 'p', ab)
+
+        def witness(model):
+            kv, pv = valconv.fv_to_float(k, model), valconv.fv_to_float(p, model)
+            case = {'op': 'bound_scale', 'a': bj(ab, model), 'k': fjs(kv)}
+
+            def judge(res):
+                if 'ok' not in res:
+                    return True
+                lo, hi = fsj(res['ok'][0]), fsj(res['ok'][1])
+                v = kv * pv
+                return not (lo <= hi and lo != math.inf and hi != -math.inf and lo - 1e-9 * abs(v) <= v <= hi + 1e-9 * abs(v))
+            return case, judge, f'{case} point {pv}'
+        try:
+            res = P.it.run_body(scale, [a, k])
+        except RustPanic:
+            P.fail('no-panic', witness)
+            return
+        P.cover('negative-factor', f_cmp('lt', k, ZERO))
+        P.require('scaled-point-enclosed', encloses(res, r_mul(k.r, p.r)), witness)
+    chk.harness('Bound*f64', h_scale, regions=['negative-factor'])
+
     def mk_pow(n):
         def h(P):
             a, ab = sym_bound(P, 'a')
